@@ -88,6 +88,13 @@ func c06Exec(frames []CFrame, seq []int, tail int, alone []string, kind int) *co
 		p, err, res := readPacket(r, stepBudget(len(frames[i].B)))
 		got := outcome(p, err, res)
 		drawn := st.used() - before
+		if err != nil && p == nil && res.Panic == "" && !res.Budget && drawn <= c06HeaderLen(frames[i].B) && drawn < len(frames[i].B) {
+			// rejected while reading the fixed header (a stricter decoder may
+			// refuse e.g. a non-minimal remaining length): the call did not
+			// get past the fixed header, nothing is demanded of it, and the
+			// rest of this stream is no longer framed
+			return nil
+		}
 		if drawn != len(frames[i].B) {
 			return mk("bytes-consumed", fmt.Sprintf("call %d (frame %s, %d bytes) drew %d bytes from the stream (result %q)", j+1, frames[i].Name, len(frames[i].B), drawn, clip(got, 80)))
 		}
@@ -102,6 +109,17 @@ func c06Exec(frames []CFrame, seq []int, tail int, alone []string, kind int) *co
 		}
 	}
 	return nil
+}
+
+func c06HeaderLen(b []byte) int {
+	n := 1
+	for n < len(b) && n < 5 {
+		n++
+		if b[n-1]&0x80 == 0 {
+			break
+		}
+	}
+	return n
 }
 
 func c06Alone(frames []CFrame) []string {
